@@ -77,10 +77,19 @@ def gen(rng, idx, tier):
         ws = [g["width"] for g in glyphs] or [500]
         info["postscriptDefaultWidthX"] = rng.choice([rng.choice(ws), 500.5, 400, 0, 600.25])
         info["postscriptNominalWidthX"] = rng.choice([rng.choice(ws), 92.5, 93, 0, 250.75])
+    ufo_lib = {}
+    if stratum == "default" and rng.random() < 0.15:
+        # lib filters that must not change what is drawn (glyphsLib writes the first one):
+        # decomposing / flattening early keeps every contour where full decomposition puts it
+        ufo_lib["com.github.googlei18n.ufo2ft.filters"] = [rng.choice([
+            {"name": "decomposeTransformedComponents", "pre": True},
+            {"name": "decomposeTransformedComponents", "pre": True},
+            {"name": "flattenComponents", "pre": True},
+            {"name": "decomposeTransformedComponents"}])]
     return {
         "stratum": stratum,
         "skip": skip,
-        "ufo": {"glyphs": glyphs, "info": info},
+        "ufo": {"glyphs": glyphs, "info": info, "lib": ufo_lib},
         # defcon's own change notifications recurse for ever on a cyclic component graph while the
         # font is being BUILT (before ufo2ft sees it), so cycles are only built with ufoLib2
         "lib": "ufoLib2" if stratum == "cycle" else rng.choice(["defcon", "ufoLib2"]),
@@ -554,6 +563,8 @@ def run(case):
             bump("cff1_width_checked")
             if "postscriptNominalWidthX" in spec["info"]:
                 bump("cff1_width_checked_with_explicit_width_bases")
+    if (spec.get("lib") or {}).get("com.github.googlei18n.ufo2ft.filters"):
+        bump("fonts_with_lib_filters")
     order = tt.getGlyphOrder()
     extra = [n for n in order if n not in glyphs and n != ".notdef"]
     if extra:
